@@ -188,6 +188,20 @@ CLAIMED = {
               "bounded exhaustive native execution for the Commissioning clauses (labelled bounded)",
     note=TB + "; unit contracts contracts/units/addressing.py assumed; the Commissioning-level clauses are decided only by "
          "the bounded stand-in (<= 3 units); termination of the restart loop under fairness is undecided"),
+ "C03": dict(
+    category="proof",
+    text="An independently transcribed command table of IEC 62386 parts 102, 103, 202, 205, 206, 207, 209 (and 301/303/304, "
+         "marked unverified) with an independent table-driven encoder is compared with the library: for every verified row "
+         "and every destination kind, instance kind and parameter value (all symbolic) the real constructor's frame is "
+         "proved bit-identical to the standard's encoding and the standard's frame is proved to decode to the command of "
+         "that name under its device type; send-twice flags, answer kinds (none / yes-no / 8-bit) and device types are "
+         "compared exhaustively, and every implemented command class must have a table row.",
+    design_ref="DESIGN.md 6 (C03)",
+    technique="contract-based deductive verification: constructor output proved equal to a table-driven spec encoder "
+              "(z3 QF_BV) + exhaustive comparison of the finite flag tables",
+    note=TB + "; specs/iec62386.py is the trusted oracle, written from memory of the standard offline; rows/flags listed as "
+         "unverified in the evidence (part 202 send-twice column, REFERENCE SYSTEM POWER and START AUTO CALIBRATION "
+         "send-twice, parts 301/303/304 opcodes) are excluded"),
 }
 
 NA_REASON = "check under construction in this round (no obligations built yet); see DESIGN.md section 6"
